@@ -444,9 +444,27 @@ where
     }
 
     /// Non-blocking: one complete message if it is already there (sched mode).
+    /// Is a complete message (or end-of-stream) waiting? The library may write a message with
+    /// several sendmsg calls, so "readable" is not enough.
+    pub fn msg_ready(&self) -> bool {
+        let fd = self.fd();
+        let mut buf = vec![0u8; 12 + 4096 + 64];
+        // SAFETY: recv with MSG_PEEK|MSG_DONTWAIT into a local buffer.
+        let n = unsafe { libc::recv(fd, buf.as_mut_ptr() as *mut libc::c_void, buf.len(), libc::MSG_PEEK | libc::MSG_DONTWAIT) };
+        if n == 0 {
+            return true; // end of stream
+        }
+        if n < 12 {
+            // nothing yet, or a partial header; a hang-up with a partial message counts as ready
+            return n > 0 && crate::sysshim::hung_up(fd);
+        }
+        let size = rd32(&buf, 8) as usize;
+        (n as usize) >= 12 + size.min(4096 + 52) || crate::sysshim::hung_up(fd)
+    }
+
     pub fn try_recv_msg(&mut self) -> Option<ReqOut> {
         let fd = self.fd();
-        if !crate::sysshim::readable(fd) {
+        if !crate::sysshim::readable(fd) || !self.msg_ready() {
             return None;
         }
         let mut buf: Vec<u8> = Vec::new();
